@@ -25,9 +25,21 @@ from nrel.hive.state.vehicle_state.repositioning import Repositioning
 from nrel.hive.state.vehicle_state.servicing_trip import ServicingTrip
 from nrel.hive.state.entity_state import entity_state_ops
 
-from .encode import enc_instr, enc_sim
+from .encode import q, enc_instr, enc_sim
 from .record import Oracle, enc_events, recording
 from .world import CHARGERS, World
+
+
+def _crow_km(a: str, b: str) -> float:
+    """haversine distance between two cell centres, computed here (not by H3Ops)"""
+    from math import asin, cos, radians, sin, sqrt
+
+    import h3
+
+    (lat1, lon1), (lat2, lon2) = h3.h3_to_geo(a), h3.h3_to_geo(b)
+    lat1, lon1, lat2, lon2 = map(radians, (lat1, lon1, lat2, lon2))
+    d = sin((lat2 - lat1) * 0.5) ** 2 + cos(lat1) * cos(lat2) * sin((lon2 - lon1) * 0.5) ** 2
+    return 2 * 6371 * asin(sqrt(d))
 
 
 def random_instruction(w: World, sim, vid: str, rng: random.Random):
@@ -322,10 +334,16 @@ def run_history(w: World, rng: random.Random, steps: int, *, p_instr: float = 0.
             oracle.reset()
             pre = sim
             sim = perform_vehicle_state_updates(sim, env)
+            crow = []
+            for vid_, v_ in sorted(sim.vehicles.items()):
+                p_ = pre.vehicles.get(vid_)
+                if p_ is not None and p_.geoid != v_.geoid:
+                    crow.append([n.get("veh", vid_), q(_crow_km(p_.geoid, v_.geoid))])
             recs.append(
                 {
                     "op": "update",
                     "id": f"{tag}:{k}:update",
+                    "crow": crow,
                     "pre": enc_sim(n, pre),
                     "post": enc_sim(n, sim),
                     "events": enc_events(n, env.reporter.reports),
